@@ -198,7 +198,7 @@ def implicit_vs_explicit(ctx, g, dims, tset):
 
 def scenarios(tier):
     T = []
-    D = {1: [[2], [3]], 2: [[2, 2]], 3: [[2, 2, 2]]}
+    D = {1: [[2], [3]], 2: [[2, 2], [2, 3]], 3: [[2, 2, 2], [1, 2, 3]]}
     if tier == 'thorough':
         D = {1: [[1], [2], [3], [4]], 2: [[2, 2], [1, 2], [3, 2]], 3: [[2, 2, 2], [2, 1, 2]]}
     for g in scen.ALL:
@@ -209,6 +209,8 @@ def scenarios(tier):
             for ts in SETS:
                 for ak in ('scalar', 'field'):
                     if tier == 'quick' and ((ak == 'field' and ts not in ('all',)) or (nd == 3 and ts not in ('all', 'diff'))):
+                        continue
+                    if tier == 'quick' and dims != D[nd][0] and not (ts == 'all' and ak == 'field'):
                         continue
                     for per in ((False, True) if canper and (tier == 'thorough' or ts == 'all') else (False,)):
                         T.append({'name': 'implicit/%s/%s/%s/%s%s' % (g, ds, ts, ak, '/periodic' if per else ''), 'fn': 'pv.props.c12:implicit_step',
